@@ -3,7 +3,8 @@
 Parts
   accept   : generated definition groups (good and bad by construction) -> DefinitionDict.check_for_definitions
              accepts exactly the good ones, rejects with >=1 DEFINITION_INVALID issue and an unchanged map otherwise;
-             duplicates (case-insensitive) are reported and ignored.
+             duplicates (case-insensitive) are reported and ignored.  Placeholder definitions are also generated with the
+             '#' tag at depth 1, 2, 3 of the content (rt/c09_depth.py), good and faulty, and the accepted ones are used once.
   ops      : annotations using Def/Name[/v] at depth <= 3  x  every operation sequence of length <= 4 (quick <= 3) over
              {expand, shrink, copy, validate, str} applied to ONE HedString object, compared after every step with a
              small tree model written from the property text.
@@ -180,12 +181,27 @@ _dd_cache = {}
 
 
 def def_dict():
+    """the dictionary of SPEC_DEFS.  A definition the real code refuses is REPORTED by run() (check_spec_defs) - the
+    other parts go on with what was accepted and report what follows from the gap"""
     if "dd" not in _dd_cache:
         from hed.models import DefinitionDict
-        dd = DefinitionDict(def_strings(SPEC_DEFS), schema())
-        assert sorted(dd.defs) == sorted(SPEC_DEFS), (sorted(dd.defs), dd.issues)
-        _dd_cache["dd"] = dd
+        _dd_cache["dd"] = DefinitionDict(def_strings(SPEC_DEFS), schema())
     return _dd_cache["dd"]
+
+
+def check_spec_defs(w):
+    """every definition of SPEC_DEFS is good by the property text: each must be accepted on its own"""
+    from hed.models import DefinitionDict, HedString
+    sch = schema()
+    for key, text in zip(SPEC_DEFS, def_strings(SPEC_DEFS)):
+        case = {"part": "accept", "text": text, "name": SPEC_DEFS[key]["name"] + ("/#" if SPEC_DEFS[key]["takes"] else ""),
+                "accept": True, "top_level": True, "ambiguous": False, "shape": "plain", "origin": "SPEC_DEFS"}
+        w.case(("accept", text), nontrivial=True, sample=case)
+        check_accept(w, case)
+    missing = sorted(set(SPEC_DEFS) - set(def_dict().defs))
+    w.check(not missing, "C09.accept.good_definition_added", {"part": "spec_defs", "definitions": def_strings(SPEC_DEFS)},
+            observed={"missing from DefinitionDict(list_of_strings)": missing}, expected=sorted(SPEC_DEFS))
+    return len(SPEC_DEFS)
 
 
 # --------------------------------------------------------------------------------------------------------------
@@ -245,6 +261,47 @@ def gen_definition_cases(quick):
                "ambiguous": ambiguous, "shape": shape}
 
 
+DEPTH_NAMES = [("Speed/#", True), ("Abc", False)]
+
+
+def gen_depth_cases():
+    """placeholder tag at depth 1, 2, 3 of the content (rt/c09_depth.py): good fillers, and every faulty variant (two '#',
+    '#' on a non-value tag, no '#', name without '/#' but content with '#') at every depth"""
+    from rt import c09_depth as D
+    for nm, takes in DEPTH_NAMES:
+        singles = [(c, [d] * max(1, n), lay, n, onv, v) for c, d, lay, n, onv, v in D.single_slot_contents()]
+        doubles = [(c, list(ds), lay, n, onv, v) for c, ds, lay, n, onv, v in D.two_slot_contents()]
+        for ctext, depths, layout, nhash, on_value_tag, value in singles + doubles:
+            placeholder_ok = (nhash == 1 and on_value_tag) if takes else (nhash == 0)
+            case = {"part": "accept", "text": f"(Definition/{nm}, {ctext})", "name": nm, "accept": placeholder_ok,
+                    "top_level": True, "ambiguous": (not takes) and nhash >= 2, "shape": "plain",
+                    "origin": "depth", "layout": layout, "hash_depths": D.depth_of_hash(ctext), "content": ctext}
+            if placeholder_ok and takes:
+                case["use_value"] = value
+            yield case
+
+
+def check_use_of_accepted(w, case, dd):
+    """an accepted '/#' definition is usable: Def/Name/v validates and expands to the content with '#' replaced by v"""
+    from hed.models import HedString
+    sch = schema()
+    name = case["name"][:-2]
+    v = case["use_value"]
+    use = f"Def/{name}/{v}"
+    content = parse(case["content"])[0]
+    expected = [[f"Def-expand/{name}/{v}", subst(content, v)]]
+    try:
+        issues = HedString(use, sch, dd).validate(allow_placeholders=False)
+        errs = [(i["code"], i["message"][:100]) for i in issues if i.get("severity", 1) == 1]
+        obs = str(HedString(use, sch, dd).expand_defs())
+    except Exception as e:  # noqa
+        w.fail("C09.accept.accepted_definition_is_usable", dict(case, use=use), observed=f"{type(e).__name__}: {e}"[:200],
+               expected="no exception")
+        return
+    w.check(not errs and norm(parse(obs)) == norm(expected), "C09.accept.accepted_definition_is_usable", dict(case, use=use),
+            observed={"errors": errs, "expanded": obs}, expected={"errors": [], "expanded": unparse(expected)})
+
+
 def check_accept(w, case):
     from hed.models import DefinitionDict, HedString
     sch = schema()
@@ -273,6 +330,8 @@ def check_accept(w, case):
             takes = case["name"].endswith("/#")
             w.check(ent.takes_value == takes and ent.name == stripped, "C09.accept.entry_fields", case,
                     observed=[ent.name, ent.takes_value], expected=[stripped, takes])
+            if case.get("use_value") is not None:
+                check_use_of_accepted(w, case, dd)
     else:
         w.check(added == [], "C09.accept.bad_definition_not_added", case, observed={"added": added},
                 expected={"added": []})
@@ -917,7 +976,9 @@ def check_column(w, texts):
 
 # --------------------------------------------------------------------------------------------------------------
 def run(w: Workload):
-    w.rule = ("accept: product of 7 definition names x 16 content groups x 6 group shapes (good/bad known by construction) "
+    w.rule = ("accept: product of 7 definition names x 16 content groups x 6 group shapes (good/bad known by construction), "
+              "placeholder definitions with the '#' tag at depth 1, 2, 3 of the content (21 layouts x good and faulty fillers x "
+              "names with/without '/#'), "
               "plus duplicate pairs over case variants and three ways of adding; ops: every annotation built from 9 "
               "templates (depth<=3) x 11 Def uses (6 definitions: plain, '/#', nested, unit-carrying, contentless; "
               "case variants; 3 ill-formed uses), their expanded and mixed forms, x EVERY operation sequence of length "
@@ -928,7 +989,6 @@ def run(w: Workload):
               "with text, identity-snapshot, disjointness and parent-pointer checks after each step; defexpand: every sibling order of every correct Def-expand group and 6-8 mutations each; "
               "a case is distinct by its text (+ op sequence)")
     schema()
-    def_dict()
     # ---- accept
     n = 0
     for case in gen_definition_cases(w.quick):
@@ -936,6 +996,25 @@ def run(w: Workload):
         w.case(("accept", case["text"]), nontrivial=True, sample=case)
         check_accept(w, case)
     w.part("accept", cases=n, bound="7 names x 16 contents x 6 shapes of one definition group", exhaustive=True)
+    n = 0
+    by_depth = {}
+    for case in gen_depth_cases():
+        n += 1
+        w.case(("accept", case["text"]), nontrivial=True, sample=case)
+        check_accept(w, case)
+        k = ("good" if case["accept"] else "ambiguous" if case["ambiguous"] else "faulty") + "@depth" + \
+            "+".join(str(d) for d in case["hash_depths"])
+        by_depth[k] = by_depth.get(k, 0) + 1
+    w.part("accept: placeholder depth", cases=n, bound="2 names (with and without '/#') x [14 one-slot layouts (slot at depth "
+           "1, 2, 3 of the content: alone, next to tags, next to / inside sibling groups) x (4 value-taking placeholder tags + "
+           "5 faulty fillers: two '#', '##', '#' on a non-value tag (2), no '#') + 7 two-slot layouts (depth pairs 1+1 .. 3+3) x "
+           "2 x 3 second fillers]; accepted '/#' definitions are also used once (Def/Name/v validates and expands to the "
+           "content with v plugged in); cases by verdict and depth of the '#': %s" % dict(sorted(by_depth.items())),
+           exhaustive=True)
+    n = check_spec_defs(w)
+    w.part("accept: the definitions used by the other parts", cases=n, bound="the %d definitions of SPEC_DEFS, one by one and "
+           "as one list" % n, exhaustive=True)
+    def_dict()
     n = 0
     for case in gen_duplicate_cases():
         n += 1
@@ -1055,6 +1134,8 @@ def replay(w: Workload, case: dict):
     def_dict()
     if part == "accept":
         check_accept(w, inp)
+    elif part == "spec_defs":
+        check_spec_defs(w)
     elif part == "duplicate":
         check_duplicate(w, inp)
     elif part == "ops":
